@@ -26,6 +26,11 @@ pub fn plan(ctx: &Ctx) -> Vec<(Cfg, usize, usize)> {
     } else {
         for seed in [11u64, 22, 33, 44] {
             for roles in [0u8, 1, 2] {
+                // entropy seeds 33 and 44 only for the configuration with two ordinary peers
+                // (roles 0), where peer sampling has a real choice
+                if seed >= 33 && roles != 0 {
+                    continue;
+                }
                 for mesh in [1u8, 2, 3] {
                     v.push((c(roles, mesh, 1, seed), 4, 3));
                 }
